@@ -21,6 +21,7 @@ def atomToJ : Atom → J
 def valOfJ : J → Option Val
   | .obj [("d", .obj kvs)] => (kvs.mapM fun (p : String × J) => (atomOfJ p.2).map (fun a => (p.1, a))).map .dict
   | .obj [("o", .arr [v, .bool c, .bool oa])] => (atomOfJ v).map (fun a => .ovr a c oa)
+  | .obj [("l", .arr xs)] => (xs.mapM atomOfJ).map .list
   | j => (atomOfJ j).map .atom
 
 def insertSorted {β : Type} (p : String × β) : List (String × β) → List (String × β)
@@ -33,6 +34,7 @@ def valToJ : Val → J
   | .atom a => atomToJ a
   | .dict kvs => .obj [("d", .obj ((sortKvs kvs).map fun (k, a) => (k, atomToJ a)))]
   | .ovr a c oa => .obj [("o", .arr [atomToJ a, .bool c, .bool oa])]
+  | .list xs => .obj [("l", .arr (xs.map atomToJ))]
 
 def frameOfJ : J → Option Frame
   | .obj kvs => kvs.mapM fun (p : String × J) => (valOfJ p.2).map (fun x => (p.1, x))
@@ -55,6 +57,10 @@ def mgrOfName (n : String) : Option Mgr := registry.find? (fun m => m.name == n)
 partial def progOfJ : J → Option Prog
   | .arr [.str "skip"] => some .skip
   | .arr [.str "sync"] => some .skip        -- hand-off points exist only in the real two-thread run
+  -- public actions on the manager object of the enclosing block: they read (`wrapped_probe`:
+  -- the explicit-propagation wrapper observes the current overrides) or do not touch the setting
+  | .arr [.str "act", .str n, .str "wrapped_probe"] => (mgrOfName n).map .probe
+  | .arr [.str "act", .str _, .str _] => some .skip
   | .arr [.str "raise"] => some .raise
   | .arr [.str "seq", p, q] => do pure (.seq (← progOfJ p) (← progOfJ q))
   | .arr [.str "try", p] => do pure (.try_ (← progOfJ p))
@@ -75,6 +81,8 @@ def behav (name : String) (v : ObsVal) : J :=
   | "allow_partial" => .obj [("partial_rejected", .bool (!isT))]
   | "track_origin" => .obj [("clone_has_origin", .bool isT)]
   | "auto_call_functors" => .obj [("called", .bool isT)]
+  | "dynamic_evaluate" =>
+    .obj [("oneof", match v with | .atom (.str f) => .str f | _ => .str "hyper")]
   | _ => .null
 
 def outcomeToJ : Outcome → J
